@@ -192,6 +192,23 @@ execution (VerifC06SnapshotProbe): genMarker != nil and an account read at the h
 > 0 such executions and none that found the generation finished. (With the old snapshot data left in the database the
 generator re-validates it by range proof and finishes without opening the trie - that is why the data is wiped.)
 
+seeded-j-reverted-resurrection-drops-destruct-marker      | no tests (kai/state)     | exit 1  | C06|block=killA,rvA@legacy+factory-deployed|axis=snapshot|
+  (independently written; /verif/seeded/C06j):            |                          | (2 of 2 |  field=state-read-back,
+  kai/state/journal.go resetObjectChange.revert drops the |                          |  runs,  | C06|block=killA,rvA/setB@legacy+factory-deployed|
+  `!ch.prevdestruct` guard => a contract destructed       |                          |  same   |  axis=snapshot|field=app-hash
+  earlier in the block and resurrected by a value CALL in |                          |  sigs)  |
+  a frame that REVERTS loses its destruct marker: the     |                          |         |
+  snapshot diff layer keeps the dead account              |                          |         |
+
+The fifth seeded change (C06j) was outside the space before: no template made a contract CALL the destructed contract's
+address with value and then revert. Added: a REVERTER contract in the +factory genesis allocation (CALL(x, CALLVALUE)
+then REVERT, or with calldata byte 1 loop until out of gas), chain-only templates rvA / oogA, and the two-transaction
+block letters "killA,rvA" and "killA,oogA" in every 2-block sequence of the +factory chains (letters now {(empty), setB,
+killA, mk2B, payA, fwdA, "killA,payA", "killA,mk2B", "killA,rvA", "killA,oogA"}; clrA left to the genesis-allocation
+chains to keep the cost), compared across {snapshots off, on long-running, flattened every block, flattened + restarted,
+still generating}. Guard: some chain must have kill succeed, the reverted value call fail (receipt status 0), the address
+gone afterwards, and a later block touch it (payA / fwdA / mk2B).
+
 M20 (commitBlock does not RevertToSnapshot after a failing transaction: `_ = snap` instead of
 `state.RevertToSnapshot(snap)`): tried, quick exits 0, and that is correct for THIS property. Every node —
 proposer and receivers alike — executes the block through the same commitBlock, so the un-reverted residue
